@@ -44,6 +44,7 @@ GROUPS = {
     'Arena': dict(kind='translate', flags=RELEASE, names=['mi_arena_id_is_suitable', '_mi_arena_memid_is_suitable', 'mi_arena_id_index', 'mi_arena_id_create', '_mi_arena_id_none', 'mi_block_count_of_size', 'mi_arena_block_size', 'mi_arena_size'], mem=False, namespace='GenA', strict=False),
     'Purge': dict(kind='custom', flags=RELEASE, fn='gen_purge'),
     'Formats': dict(kind='custom', flags=RELEASE, fn='gen_formats'),
+    'Override': dict(kind='custom', flags=RELEASE + ('-DMI_MALLOC_OVERRIDE', '-DMI_SHARED_LIB', '-DMI_SHARED_LIB_EXPORT'), fn='gen_override'),
     'Entry': dict(kind='translate', flags=RELEASE, names=ENTRY, mem=False, explicit_in=('mi_posix_memalign',), namespace='GenE'),
 }
 
@@ -145,6 +146,143 @@ def gen_formats(tu, spec):
     L.append(']\nend Gen')
     L += ['-- HEX ' + v.encode('latin-1', 'replace').hex() for v in sorted(found)]
     return '\n'.join(L) + '\n'
+
+
+def override_build_dir(repo):
+    import vcommon
+    return os.path.join(vcommon.CACHE, 'override', vcommon.repo_hash())
+
+
+def build_override_artifacts(repo):
+    """cmake build of the shared library and the single override object from the current tree (cached per source hash)"""
+    d = override_build_dir(repo)
+    so = os.path.join(d, 'libmimalloc.so'); obj = os.path.join(d, 'mimalloc.o')
+    if os.path.exists(so) and os.path.exists(obj):
+        return so, obj
+    import shutil
+    root = os.path.dirname(d)
+    if os.path.isdir(root):
+        for old in os.listdir(root):
+            shutil.rmtree(os.path.join(root, old), ignore_errors=True)
+    os.makedirs(d, exist_ok=True)
+    b = os.path.join(d, 'b')
+    p = subprocess.run(['cmake', '-G', 'Ninja', '-S', repo, '-B', b, '-DCMAKE_BUILD_TYPE=Release', '-DMI_BUILD_TESTS=OFF'], capture_output=True, text=True)
+    if p.returncode != 0:
+        raise T.TranslateError('cmake configure failed: ' + (p.stdout + p.stderr)[-1500:])
+    p = subprocess.run(['cmake', '--build', b, '-j', '16'], capture_output=True, text=True)
+    if p.returncode != 0:
+        raise T.TranslateError('cmake build failed: ' + (p.stdout + p.stderr)[-1500:])
+    real = os.path.realpath(os.path.join(b, 'libmimalloc.so'))
+    if not os.path.exists(real) or not os.path.exists(os.path.join(b, 'mimalloc.o')):
+        raise T.TranslateError('the cmake build did not produce libmimalloc.so and mimalloc.o')
+    shutil.copy(real, so); shutil.copy(os.path.join(b, 'mimalloc.o'), obj)
+    shutil.rmtree(b, ignore_errors=True)
+    return so, obj
+
+
+def gen_override(tu, spec):
+    """(1) the dynamic symbols defined by the libmimalloc.so and the global symbols of the mimalloc.o that cmake builds from the current tree;
+       (2) for every function defined in src/alloc-override.c: the function it forwards to (alias attribute, or the single call in its body) and which of its
+           parameters it passes on, read from the clang AST of the translation unit compiled with MI_MALLOC_OVERRIDE"""
+    so, obj = build_override_artifacts(tu.repo)
+    def syms(args):
+        p = subprocess.run(['nm'] + args, capture_output=True, text=True)
+        if p.returncode != 0:
+            raise T.TranslateError('nm failed: ' + p.stderr[-500:])
+        out = []
+        for l in p.stdout.splitlines():
+            q = l.split()
+            if len(q) >= 3 and q[1] in 'TWtwi':
+                if q[1] in 'TWi':
+                    out.append(q[2].split('@')[0])
+        return sorted(set(out))
+    exp_so = syms(['-D', '--defined-only', so]); exp_obj = syms(['--defined-only', '--extern-only', obj])
+    fw = []; odd = []
+    def strip(e):
+        while e.get('kind') in ('ImplicitCastExpr', 'ParenExpr', 'CStyleCastExpr') and e.get('inner'):
+            e = e['inner'][0]
+        return e
+    curfile = None
+    for o in tu.ast.get('inner', []):
+        loc = o.get('loc', {})
+        f = loc.get('file') or loc.get('expansionLoc', {}).get('file') or loc.get('spellingLoc', {}).get('file')
+        if f:
+            curfile = f
+        if o.get('kind') != 'FunctionDecl' or not (curfile or '').endswith('alloc-override.c'):
+            continue
+        name = o['name']
+        params = [c['name'] for c in o.get('inner', []) if c.get('kind') == 'ParmVarDecl' and 'name' in c]
+        nparams = len([c for c in o.get('inner', []) if c.get('kind') == 'ParmVarDecl'])
+        alias = [c for c in o.get('inner', []) if c.get('kind') == 'AliasAttr']
+        body = [c for c in o.get('inner', []) if c.get('kind') == 'CompoundStmt']
+        if alias:
+            # clang 14 does not print the aliasee in the JSON dump: take it from the source text of the attribute
+            a = alias[0]; rng = a.get('range', {})
+            b0 = rng.get('begin', {}); e0 = rng.get('end', {})
+            target = None
+            for key in ('spellingLoc', 'expansionLoc'):
+                pass
+            target = a.get('aliasee')
+            if target is None:
+                target = _alias_from_source(tu.repo, o)
+            if target is None:
+                odd.append(name + ': alias target not found'); continue
+            fw.append((name, target, list(range(nparams))))
+        elif body:
+            calls = []
+            def walk(n):
+                if n.get('kind') == 'CallExpr':
+                    calls.append(n); return
+                for c in n.get('inner', []):
+                    walk(c)
+            walk(body[0])
+            if len(calls) != 1:
+                odd.append('%s: %d calls in the body' % (name, len(calls))); continue
+            c = calls[0]; callee = strip(c['inner'][0])
+            if callee.get('kind') != 'DeclRefExpr':
+                odd.append(name + ': indirect call'); continue
+            idx = []
+            for a in c['inner'][1:]:
+                a = strip(a)
+                if a.get('kind') == 'DeclRefExpr' and a['referencedDecl'].get('kind') == 'ParmVarDecl' and a['referencedDecl']['name'] in params:
+                    idx.append(params.index(a['referencedDecl']['name']))
+                else:
+                    idx.append(99)
+            fw.append((name, callee['referencedDecl']['name'], idx))
+    if not fw:
+        raise T.TranslateError('no forwarding functions found in alloc-override.c (is MI_MALLOC_OVERRIDE honoured?)')
+    fw = sorted(set((a, b, tuple(c)) for a, b, c in fw))
+    L = ['-- GENERATED by /verif/extract/gen.py: symbols of the cmake-built libmimalloc.so / mimalloc.o and the forwards of src/alloc-override.c (clang AST). DO NOT EDIT.',
+         'namespace GenV',
+         'def exportedSo : List String := [' + ', '.join(lean_str(x) for x in exp_so) + ']',
+         'def exportedObj : List String := [' + ', '.join(lean_str(x) for x in exp_obj) + ']',
+         '/-- (overriding symbol, function it forwards to, indices of its own parameters it passes on in order; 99 = something else) -/',
+         'def forwards : List (String × String × List Nat) := [',
+         ',\n'.join('  (%s, %s, [%s])' % (lean_str(a), lean_str(b), ', '.join(str(i) for i in c)) for a, b, c in fw), ']',
+         'def notUnderstood : List String := [' + ', '.join(lean_str(x) for x in odd) + ']',
+         'end GenV']
+    return '\n'.join(L) + '\n'
+
+
+def _alias_from_source(repo, fdecl):
+    """MI_FORWARD*(fun, ...) on the line of the declaration: the alias target is its first argument"""
+    import re
+    loc = fdecl.get('loc', {})
+    loc = loc.get('expansionLoc', loc)
+    line = loc.get('line')
+    if line is None:
+        rng = fdecl.get('range', {}).get('begin', {}); rng = rng.get('expansionLoc', rng); line = rng.get('line')
+    try:
+        src = open(os.path.join(repo, 'src', 'alloc-override.c')).read().splitlines()
+    except OSError:
+        return None
+    if line is None:
+        return None
+    for l in src[line - 1: line + 1]:
+        m = re.search(r'MI_FORWARD0?2?1?\w*\(\s*(\w+)', l)
+        if m and fdecl['name'] in l:
+            return m.group(1)
+    return None
 
 
 HEADER = 'set_option linter.unusedVariables false\nset_option maxRecDepth 4096'
